@@ -306,11 +306,12 @@ def _solve_vc(task):
         # hypotheses is sound, and many clauses follow from their predecessors alone
         tm = getattr(o, "tagmap", None) or {}
         from .engine import _has_quant
-        keep = [h for h in o.hyps if (tm.get(h.get_id()) or "").startswith(("newpost:", "new:")) or
+        keep = [h for h in o.hyps if (tm.get(h.get_id()) or "").startswith(("newpost:", "new:", "refresh:")) or
                 (tm.get(h.get_id()) is None and not _has_quant(h))]
-        chain_only = [h for h in o.hyps if (tm.get(h.get_id()) or "").startswith(("newpost:", "new:"))]
+        chain_only = [h for h in o.hyps if (tm.get(h.get_id()) or "").startswith(("newpost:", "new:", "refresh:"))]
         import copy as _copy
-        for hs in (chain_only, keep):
+        qf_only = [h for h in o.hyps if not _has_quant(h)]
+        for hs in (chain_only, keep, qf_only):
             if hs and len(hs) < len(o.hyps):
                 o2 = _copy.copy(o)
                 o2.hyps = hs
